@@ -30,6 +30,9 @@ Markup == <<"{{", "}}", "{%", "%}", "{#", "#}", "#", "-", "~", "raw", "endraw", 
 Expr == <<"x", "and", "or", "not", "in", "contains", "if", "else", "with", "for", "as", "nil", "true",
           "1", ".", "..", "[", "]", "(", ")", "'", "\"", "\\", "${", "}", "|", "||", ":", ",", "=", "=>",
           "==", "<", "-", "e", "e999", " ", "\n", "@">>
+\* expression text for the serialisation round trip (C12): what str() must put back - brackets around names that are
+\* not identifiers, quotes of both kinds, grouping, the comma of a one-item array, interpolation
+ExprRT == <<"x", "y", " ", "or", "not", "true", "1", ".", "[", "]", "(", ")", "'", "\"", "${", "}", "|", ",", "==", "a b", "\\", "first">>
 MarkupSmall == <<"{{", "}}", "{%", "%}", "{#", "#}", "-", "raw", "endraw", "if x", "endif", "ab", " ", "\n", "'", "x">>
 ExprSmall == <<"x", "and", "not", "contains", "if", "else", "1", ".", "..", "[", "]", "(", ")", "'", "\"",
                "${", "}", "|", ":", ",", "==", "-", "e999", " ">>
